@@ -83,6 +83,7 @@ inline void child_loop(World* w, u64 verif_seed, u64 cur, u64 end, u64 stride, i
         fprintf(out, "E %s\n", stats_json(total).c_str()); fprintf(out, "X %llu\n", static_cast<unsigned long long>(i)); fflush(out); if (hf) fclose(hf); _exit(0); }
     }
     fprintf(out, "D %llu\n", static_cast<unsigned long long>(i));
+    if ((total.runs % 64) == 0) fprintf(out, "I %s\n", stats_json(total).c_str());   // cumulative; used only if this child dies later
     if (deadline_s > 0) {
       double el = std::chrono::duration<double>(std::chrono::steady_clock::now() - t0).count();
       if (el > deadline_s) { fprintf(out, "T %llu\n", static_cast<unsigned long long>(i)); break; }
@@ -114,13 +115,14 @@ inline int cmd_run(const Args& a) {
     close(fds[1]);
     FILE* in = fdopen(fds[0], "r");
     char* line = nullptr; size_t cap = 0; ssize_t n;
-    long long started = -1, done = -1; bool ended = false, stop = false;
+    long long started = -1, done = -1; bool ended = false, stop = false; std::string last_incremental;
     while ((n = getline(&line, &cap, in)) > 0) {
       if (line[n - 1] == '\n') line[n - 1] = 0;
       switch (line[0]) {
         case 'S': started = std::atoll(line + 2); break;
         case 'D': done = std::atoll(line + 2); break;
         case 'V': printf("%s\n", line + 2); fflush(stdout); violations++; break;
+        case 'I': last_incremental = line + 2; break;
         case 'P': printf("{\"type\":\"sample\",\"plan\":%s}\n", line + 2); break;
         case 'E': printf("{\"type\":\"stats\",\"stats\":%s}\n", line + 2); ended = true; break;
         case 'T': printf("{\"type\":\"truncated\",\"at\":%s}\n", line + 2); stop = true; break;
@@ -131,6 +133,7 @@ inline int cmd_run(const Args& a) {
     int status = 0; waitpid(pid, &status, 0);
     if (ended && WIFEXITED(status) && WEXITSTATUS(status) == 0) { if (stop) break; cur = end; break; }
     // the child died inside run `started`
+    if (!ended && !last_incremental.empty()) printf("{\"type\":\"stats\",\"stats\":%s}\n", last_incremental.c_str());
     if (started < 0 || started == done) { fprintf(stderr, "worker child died outside a run (status %d)\n", status); printf("{\"type\":\"harness_error\",\"what\":\"child died outside a run\"}\n"); return 2; }
     crashes++;
     u64 idx = static_cast<u64>(started);
